@@ -310,32 +310,69 @@ theorem zeroCopy_pad (a : ZcArgs) (d d' : Decl) (x : FTy) (l : Layout)
 
 /-! ## the sized part of `#[unsized_type]` structs -/
 
-theorem sizedPart_layout (d : Decl) (x : FTy) (l : Layout)
+theorem sumSizes_append (a b : List FTy) : sumSizes (a ++ b) = sumSizes a + sumSizes b := by
+  induction a with
+  | nil => simp [sumSizes]
+  | cons f t ih => simp only [sumSizes, List.cons_append, List.map_cons, List.foldr_cons] at ih ⊢; omega
+
+theorem markerFields_not_conc (skip : Bool) (d : Decl) :
+    ∀ f ∈ markerFields skip d, ∀ t, f = .conc t → 0 < t.align := by
+  intro f hf t ht
+  unfold markerFields at hf
+  split at hf
+  · simp at hf; subst hf; cases ht
+  · simp at hf
+
+theorem sumSizes_marker (skip : Bool) (d : Decl) (x : FTy) :
+    sumSizes ((markerFields skip d).map (Field.inst x)) = 0 := by
+  unfold markerFields
+  split <;> simp [sumSizes, Field.inst, FTy.phantom]
+
+theorem sizedPart_layout (skip : Bool) (d : Decl) (x : FTy) (l : Layout)
     (hf : ∀ f ∈ d.fields, ∀ t, f = .conc t → 0 < t.align) (hx : 0 < x.align)
-    (hacc : sizedPart d = .accept)
-    (hl : rustcLayout ((sizedPartDecl d).inst x) = some l) :
+    (hacc : sizedPart skip d = .accept)
+    (hl : rustcLayout ((sizedPartDecl skip d).inst x) = some l) :
     l.pad = 0 ∧ l.align = 1 ∧ l.size = sumSizes (d.fields.map (Field.inst x)) := by
-  have hA : deriveAlign1Struct (sizedPartDecl d) = .accept := by
+  have hA : deriveAlign1Struct (sizedPartDecl skip d) = .accept := by
     unfold sizedPart at hacc
     simp only at hacc
-    by_cases h : deriveAlign1 (sizedPartDecl d) = .accept
+    by_cases h : deriveAlign1 (sizedPartDecl skip d) = .accept
     · simpa [deriveAlign1, sizedPartDecl] using h
     · simp [h] at hacc
-  obtain ⟨r, hg⟩ : ∃ r, getRepr (sizedPartDecl d).attrs = some r := by
+  obtain ⟨r, hg⟩ : ∃ r, getRepr (sizedPartDecl skip d).attrs = some r := by
     unfold deriveAlign1Struct at hA
-    cases hg : getRepr (sizedPartDecl d).attrs with
+    cases hg : getRepr (sizedPartDecl skip d).attrs with
     | none => simp [hg] at hA
     | some r => exact ⟨r, rfl⟩
-  have hattrs : (sizedPartDecl d).attrs = d.attrs ++ [[.c, .packed 1]] := rfl
+  have hattrs : (sizedPartDecl skip d).attrs = d.attrs ++ [[.c, .packed 1]] := rfl
   obtain ⟨hm, hb⟩ := getRepr_trailing_packed (hattrs ▸ hg)
-  cases hr : rustcRepr ((sizedPartDecl d).inst x).attrs.flatten with
+  cases hr : rustcRepr ((sizedPartDecl skip d).inst x).attrs.flatten with
   | none => unfold rustcLayout at hl; simp [hr] at hl
   | some rr =>
-    have hsl := structLayout_of_kind (d := (sizedPartDecl d).inst x) (Or.inl rfl) hr hl
-    have hr' : rustcRepr (sizedPartDecl d).attrs.flatten = some rr := by simpa [Decl.inst] using hr
+    have hsl := structLayout_of_kind (d := (sizedPartDecl skip d).inst x) (Or.inl rfl) hr hl
+    have hr' : rustcRepr (sizedPartDecl skip d).attrs.flatten = some rr := by
+      simpa [Decl.inst] using hr
     obtain ⟨h1, h2, h3⟩ := rustc_view_of_c_packed hg hm hb hr'
-    have hpos : AlignPos ((sizedPartDecl d).inst x).fields := alignPos_inst hf hx
-    exact structLayout_packed_pad hsl hpos h1 h2 h3
+    have hf' : ∀ f ∈ d.fields ++ markerFields skip d, ∀ t, f = .conc t → 0 < t.align := by
+      intro f hfm t ht
+      rcases List.mem_append.mp hfm with h | h
+      · exact hf f h t ht
+      · exact markerFields_not_conc skip d f h t ht
+    have hpos : AlignPos ((sizedPartDecl skip d).inst x).fields := alignPos_inst hf' hx
+    obtain ⟨p1, p2, p3⟩ := structLayout_packed_pad hsl hpos h1 h2 h3
+    refine ⟨p1, p2, ?_⟩
+    rw [p3]
+    simp only [Decl.inst, sizedPartDecl, List.map_append, sumSizes_append, sumSizes_marker]
+    omega
+
+/-- The marker in front of the checked fields changes nothing: it is zero sized and always valid. -/
+theorem structValid_marker (skip : Bool) (d : Decl) (x : FTy) (bytes : List Nat) :
+    structValid (some 1) (sizedCheckFields skip d x) bytes =
+      structValid (some 1) (d.fields.map (Field.inst x)) bytes := by
+  unfold sizedCheckFields markerFields
+  split
+  · simp [structValid, cOffsets, fieldsValid, Field.inst, FTy.phantom, effAlign, roundUp]
+  · simp
 
 /-! ## the generated bit-pattern check looks at every field, at its own bytes -/
 
